@@ -251,4 +251,4 @@ class RelBounds:
         ok = lo >= 0 and up <= -1
         def show(v):
             return "-inf" if v <= -INF else ("+inf" if v >= INF else str(v))
-        return ok, "index in [%s, L%s%s]" % (show(lo), "+" if up >= 0 else "", show(up))
+        return ok, "index in [%s, %s]" % (show(lo), "unbounded" if up >= INF else "L%+d" % up)
